@@ -197,6 +197,9 @@ EvEnd ==
      (* C16 *)
      /\ Check("C16", "CacheOffLockSame", ~run.cache => e.lock = run.preLock, e.lock)
      /\ Check("C16", "CacheDefaultOn", (editOK /\ run.cache /\ new # {}) => (e.lock >= 0 /\ LockDominates(e.lock, w1)), e.lock)
+     (* "an inserting edit run writes the lock": also one that inserted into some files and failed on others *)
+     /\ Check("C16", "InsertingRunWritesLock", (run.mode = "edit" /\ normal /\ run.cache /\ new # {} /\ ~run.lockFault /\ ~interrupted)
+                                                => LockDominates(e.lock, new), [lock |-> e.lock, new |-> new, exit |-> e.exit])
      /\ Check("C16", "CorruptLockFallsBackToScan", (run.mode = "edit" /\ run.cache /\ run.preLock = LCorrupt) =>
                                         \A x \in Ids(new) : \A r \in RefsOf(pre) : x > r, [new |-> new])
      /\ Check("C16", "SwitchesRespected", (editOK /\ ~faulted) => ~AnyMissing(post), e.exit)
